@@ -125,6 +125,43 @@ def random_packet(rng, n_uuids, n_maps, G):
             rng.choice([0, 90, 359, 360, 361, -1, -720, 725, 180]), rng.choice([0, 45, -90, 359, 360, 400])]
 
 
+def discover_aliases():
+    """(class, alias attribute, aliased attribute names, None) for the positional multi-attribute aliases and the plain
+    aliases declared anywhere in the library's packet classes; found through the closures of minecraft.utility's alias
+    factories (if those are ever restructured, nothing is found and only the hand-listed aliases are probed)."""
+    import inspect
+    from minecraft.networking.packets import clientbound, serverbound
+    from minecraft.networking import types as T
+    import minecraft.utility as U
+    seen, out = set(), []
+
+    def walk(cls):
+        if cls in seen or not isinstance(cls, type):
+            return
+        seen.add(cls)
+        for name, val in list(vars(cls).items()):
+            if isinstance(val, type) and val.__module__.startswith('minecraft.'):
+                walk(val)
+            elif isinstance(val, property) and val.fget is not None and \
+                    getattr(val.fget, '__code__', None) is not None and val.fget.__code__.co_filename == U.__file__:
+                try:
+                    nl = inspect.getclosurevars(val.fget).nonlocals
+                except Exception:       # noqa
+                    continue
+                if 'arg_names' in nl and nl.get('arg_names') and not nl.get('kwd_names'):
+                    names = list(nl['arg_names'])
+                    if all(isinstance(x, str) for x in names):
+                        out.append((cls, name, names, None))
+                elif set(nl) == {'name'} and isinstance(nl['name'], str):
+                    out.append((cls, name, [nl['name']], 'single'))
+    for mod in (clientbound.play, clientbound.login, clientbound.status, serverbound.play, serverbound.login, serverbound.status,
+                serverbound.handshake, T):
+        for val in list(vars(mod).values()):
+            if isinstance(val, type) and val.__module__.startswith('minecraft.'):
+                walk(val)
+    return out
+
+
 def value_observations(rng, n):
     from minecraft.networking.types import Vector, Position, PositionAndLook, MutableRecord, BitFieldEnum, GameMode
     from minecraft.networking.packets import clientbound, serverbound
@@ -218,24 +255,53 @@ def value_observations(rng, n):
         obs.append({'k': 'rec', 'same': same and ta == tb, 'fields': bool(fields), 'eq': bool(A == B), 'ne': bool(A != B),
                     'heq': hash(A) == hash(B), 'iter': it == va, 'cls': ta,
                     'repr': rp.startswith(ta + '(') and all('%s=%r' % (a, v) in rp for a, v in zip(na, va))})
-    # aliases
+    # aliases (an alias that cannot be read or written at all is an observation too: got = ['raised', ...])
+    def got(fn):
+        try:
+            return fn()
+        except Exception as e:      # noqa
+            return [10 ** 6]        # (an integer, so that TLC compares it with the integers that were set)
+
+    def do(fn):
+        try:
+            fn()
+        except Exception:           # noqa  (shows in the read-back)
+            pass
     for j in range(n // 2):
         p = clientbound.play.PlayerPositionAndLookPacket()
         v = [rng.randint(-99, 99) for _ in range(5)]
-        p.position = Vector(*v[:3])
-        obs.append({'k': 'alias', 'set': v[:3], 'got': [p.x, p.y, p.z]})
-        p.look = (v[3], v[4])
-        obs.append({'k': 'alias', 'set': v[3:], 'got': [p.yaw, p.pitch]})
-        p.x = v[4]
-        obs.append({'k': 'alias', 'set': [v[4], v[1], v[2]], 'got': list(p.position)})
+        do(lambda: setattr(p, 'position', Vector(*v[:3])))
+        obs.append({'k': 'alias', 'set': v[:3], 'got': got(lambda: [p.x, p.y, p.z])})
+        do(lambda: setattr(p, 'look', (v[3], v[4])))
+        obs.append({'k': 'alias', 'set': v[3:], 'got': got(lambda: [p.yaw, p.pitch])})
+        do(lambda: setattr(p, 'x', v[4]))
+        obs.append({'k': 'alias', 'set': [v[4], v[1], v[2]], 'got': got(lambda: list(p.position))})
         bc = clientbound.play.BlockChangePacket()
-        bc.blockStateId = v[0] % 4096
-        obs.append({'k': 'alias', 'set': [v[0] % 4096], 'got': [bc.block_state_id]})
-        bc.blockId, bc.blockMeta = 77, v[1] % 16
-        obs.append({'k': 'alias', 'set': [77, v[1] % 16], 'got': [bc.blockId, bc.blockMeta]})
+        do(lambda: setattr(bc, 'blockStateId', v[0] % 4096))
+        obs.append({'k': 'alias', 'set': [v[0] % 4096], 'got': got(lambda: [bc.block_state_id])})
+        do(lambda: (setattr(bc, 'blockId', 77), setattr(bc, 'blockMeta', v[1] % 16)))
+        obs.append({'k': 'alias', 'set': [77, v[1] % 16], 'got': got(lambda: [bc.blockId, bc.blockMeta])})
         pal = PositionAndLook(x=1, y=2, z=3, yaw=4, pitch=5)
-        pal.position = (v[0], v[1], v[2])
-        obs.append({'k': 'alias', 'set': v[:3], 'got': [pal.x, pal.y, pal.z]})
+        do(lambda: setattr(pal, 'position', (v[0], v[1], v[2])))
+        obs.append({'k': 'alias', 'set': v[:3], 'got': got(lambda: [pal.x, pal.y, pal.z])})
+    # every alias the library declares, found by walking its packet classes (and the records nested in them): set through
+    # the alias and read the aliased attributes, set the attributes and read through the alias
+    for (cls, attr, names, kw) in discover_aliases():
+        for rep in range(2):
+            vals = [rng.randint(-500, 500) for _ in names]
+            try:
+                o1, o2 = cls(), cls()
+            except Exception:       # noqa  (not constructible without arguments: not probed)
+                break
+            do(lambda: setattr(o1, attr, vals[0] if kw == 'single' else tuple(vals)))
+            obs.append({'k': 'alias', 'set': vals, 'got': got(lambda: [getattr(o1, nm) for nm in names]), 'where': '%s.%s (write)' % (cls.__name__, attr)})
+            for nm, val in zip(names, vals):
+                do(lambda nm=nm, val=val: setattr(o2, nm, val))
+
+            def through():
+                a = getattr(o2, attr)
+                return list(a) if isinstance(a, (tuple, list)) or hasattr(a, '__iter__') else [a]
+            obs.append({'k': 'alias', 'set': vals, 'got': got(through), 'where': '%s.%s (read)' % (cls.__name__, attr)})
     # flag enums: library ones for every value 0..255, plus generated tables
     enums = [('GameMode', GameMode), ('PlayerPositionAndLookPacket', clientbound.play.PlayerPositionAndLookPacket),
              ('SkinParts', serverbound.play.ClientSettingsPacket.SkinParts)]
@@ -328,7 +394,7 @@ def run(chk):
     obs = value_observations(rng, 150 if quick else 1500)
     tf2 = os.path.join(chk.work, 'values.json')
     with open(tf2, 'w') as f:
-        json.dump([{k: v for k, v in o.items() if k not in ('enum', 'cls')} for o in obs], f)
+        json.dump([{k: v for k, v in o.items() if k not in ('enum', 'cls', 'where')} for o in obs], f)
     r3 = chk.tlc('Trace_Values', 'Trace_Values.cfg', env={'TRACE_FILE': tf2}, must_pass=False)
     if r3.violated:
         m = re.search(r'\bi = (\d+)', r3.out)
@@ -340,6 +406,8 @@ def run(chk):
             key += ':' + bad['enum']
         if bad and bad['k'] == 'rec':
             key += ':' + bad['cls']
+        if bad and bad['k'] == 'alias' and bad.get('where'):
+            key += ':' + bad['where'].split(' ')[0]
         chk.violation(key, 'observation violates the law in Trace_Values: %s' % json.dumps(bad)[:400], {'obs': bad})
     elif not r3.ok:
         raise core.MachineryError('Trace_Values failed: %s' % r3.errors[:3])
